@@ -170,6 +170,14 @@ func init() {
 		if fd := funcDecl("File", "MoveSheet"); fd != nil {
 			fmt.Fprintf(w, "def moveRenumbersLocalSheetId : Bool := %v\n", strings.Contains(src(fd.Body), "LocalSheetID = intPtr(localSheetID)"))
 		}
+		if fd := funcDecl("File", "copySheet"); fd == nil {
+			fail("func copySheet")
+		} else {
+			b := src(fd.Body)
+			fmt.Fprintf(w, "def copyTargetByPartPath : Bool := %v\n",
+				strings.Contains(b, "f.workSheetReader(f.GetSheetName(to))") && strings.Contains(b, "sheetXMLPath, _ := f.getSheetXMLPath(f.GetSheetName(to))") &&
+					strings.Contains(b, "f.Sheet.Store(sheetXMLPath, worksheet)"))
+		}
 		if fd := funcDecl("", "deleteAndAdjustDefinedNames"); fd == nil {
 			fail("func deleteAndAdjustDefinedNames")
 		} else {
